@@ -106,7 +106,7 @@ Definition fold_case (ic : bool) (s : str) : str := if ic then to_lower s else s
 Definition veq (ic : bool) (s1 s2 : str) : bool := str_eqb (fold_case ic s1) (fold_case ic s2).
 
 (* strings.HasPrefix s pre *)
-Fixpoint has_prefix (s pre : str) : bool :=
+Fixpoint has_prefix (s pre : str) {struct pre} : bool :=
   match pre, s with
   | [], _ => true
   | x :: pre', y :: s' => N.eqb x y && has_prefix s' pre'
@@ -220,7 +220,7 @@ Fixpoint specificity (s : sel) : spec3 :=
       fold_left (fun mx s' => let n := specificity s' in if spec_less mx n then n else mx) g spec_zero
   | SNth _ _ _ _ | SOnly _ | SInput | SEmpty | SRoot | SLink | SLang _
   | SEnabled | SDisabled | SChecked => S3 0 1 0          (* pseudo_classes.go:18 abstractPseudoClass *)
-  | SNever _ => spec_zero                                (* selector.go:419 *)
+  | SNever _ => S3 0 1 0                                 (* selector.go:419 (fix) *)
   | SCompound sels pe =>                                 (* :446 *)
       let out := fold_left (fun out s' => spec_add out (specificity s')) sels spec_zero in
       match pe with [] => out | _ => spec_add out (S3 0 0 1) end
